@@ -44,6 +44,9 @@ CLAIMS = {
     "C15": {"design_ref": "DESIGN.md 7/C15 + DESIGN_NOTES/C15.md",
             "text": "Coq theorems over exact rationals (which cover every float input): closed formula of the sequential singleton subtraction (all n), range [0,1] with singletons 0 and grand 1 (or identically 0 iff additive), superadditivity preserved, denormalise o normalise = id, graph and tabulated forms commute; refutation witnesses showing the hypotheses cannot be dropped. Correspondence: exact stream bit-for-bit, float stream over every generator family and nearly additive games, graph stream, gym observation inside its Box; oracle = the property on the implementation's output.",
             "technique": "Coq proof (loop invariant over the player loop, ordered-field reasoning) + correspondence + range oracle"},
+    "C11": {"design_ref": "DESIGN.md 7/C11",
+            "text": "Coq theorems: the enumeration is every sub-list of the unknown coalitions of length <= k exactly once by increasing size (itertools.combinations model proved in CombsProofs); the reported gap depends only on the set starting knowledge + sequence, is the gap of the game in which exactly that set is known, ignores the state left in the shared game object, and any chunking of the task list over workers equals the sequential map; meta-game value is the same quantity; best-states is a per-size first-argmin of the mean. Correspondence with 1..16 worker processes (stale rows planted in the pickled object), independent per-set gap oracle, per-size optimum oracle. Partial: Pool pickling/chunking is modelled (sr_starmap), not verified.",
+            "technique": "Coq proof (enumeration spec, function-of-knowledge, chunking lemma, argmin fold invariant) + multi-process correspondence"},
 }
 
 PENDING_REASON = "check under construction in this session (DESIGN.md section 9 staging); not claimed until its theorems and correspondence are committed"
